@@ -6,7 +6,9 @@ import shellrun
 OBLIGATIONS = ['Yalafi.C16_protect_no_quote', 'Yalafi.C16_protect_lt_count', 'Yalafi.C16_protect_append']
 
 ALLOWED = {'html', 'head', 'meta', 'body', 'table', 'tr', 'td', 'span', 'a', 'br', 'h3', 'h2', 'ul', 'li', 'hr'}
-HOSTILE = ['<', '>', '&', '"', "'", '<script>', '</td>', '&amp;', '\t', '  ', 'x', 'word', 'ä', '€', '<br>', '">', '-->', '<!--']
+HOSTILE = ['<', '>', '&', '"', "'", '<script>', '</td>', '&amp;', '\t', '  ', 'x', 'word', 'ä', '€', '<br>', '">', '-->', '<!--',
+           # characters that str.splitlines() treats as line boundaries although the file has no line break there
+           '\x0c', 'a\x0bb', '\x1c', '\x1d', '\x1e', '\x85', 'a\u2028b', '\u2029']
 
 def gen_doc(rng):
     nlines = rng.randint(1, 14)
